@@ -274,14 +274,20 @@ def cache_obligation(repo, chk, u):
         defs = rd.at(lookups[0][0].id, kname)
         txt = " ".join(norm(d.value) for d in defs if d.value is not None)
         # local names used in the text are resolved one level (call_text = call_node.as_string())
-        for d in defs:
-            if d.value is None:
-                continue
-            for x in ast.walk(d.value):
-                if isinstance(x, ast.Name):
-                    for d2 in rd.at(d.node, x.id):
-                        if d2.kind == "assign" and d2.value is not None:
-                            txt += " " + norm(d2.value)
+        seen_defs = set()
+
+        def gather(ds, depth=0):
+            nonlocal txt
+            for d in ds:
+                if d.value is None or id(d) in seen_defs or depth > 4:
+                    continue
+                seen_defs.add(id(d))
+                v_ = d.value.value if isinstance(d.value, ast.AugAssign) else d.value
+                txt += " " + norm(v_)
+                for x in ast.walk(v_):
+                    if isinstance(x, ast.Name) and isinstance(x.ctx, ast.Load):
+                        gather([d2 for d2 in rd.at(d.node, x.id) if d2.kind in ("assign", "aug")], depth + 1)
+        gather(defs)
         ok = "constexpr_functions_code" in txt and "call_node.as_string()" in txt
         chk.judge("R11.a", "utils:_eval_constexpr_cache:key text contains function sources and call", ok,
                   "the program text no longer contains both the constexpr function sources and the call expression", None, where)
@@ -484,6 +490,58 @@ def _set_typed(e, rd, nid, depth=0):
     return False
 
 
+def _int_elements(name, fn, cfg, rd):
+    """Every element that enters the set *name* in fn is an integer (an enumerate index, a length, arithmetic on those)."""
+    def is_int(e, nid, depth=0):
+        if depth > 4:
+            return False
+        if isinstance(e, ast.Constant):
+            return isinstance(e.value, int) and not isinstance(e.value, bool)
+        if isinstance(e, ast.BinOp) and isinstance(e.op, (ast.Add, ast.Sub, ast.Mult, ast.FloorDiv, ast.Mod)):
+            return is_int(e.left, nid, depth + 1) and is_int(e.right, nid, depth + 1)
+        if isinstance(e, ast.Call) and norm(e.func) in ("len", "int"):
+            return True
+        if isinstance(e, ast.IfExp):
+            return is_int(e.body, nid, depth + 1) and is_int(e.orelse, nid, depth + 1)
+        if isinstance(e, ast.Name):
+            ds = rd.at(nid, e.id)
+            if not ds:
+                return False
+            for d in ds:
+                if d.kind == "for" and isinstance(d.value, ast.Call) and norm(d.value.func) == "enumerate" and d.index == (0,):
+                    continue
+                if d.kind == "for" and isinstance(d.value, ast.Call) and norm(d.value.func) == "range" and not d.index:
+                    continue
+                if d.kind == "assign" and not d.index and d.value is not None and is_int(d.value, d.node, depth + 1):
+                    continue
+                return False
+            return True
+        return False
+
+    def at(x):
+        ids = [n.id for n in cfg.nodes_of(x) if n.id in cfg.reachable()]
+        p = x
+        while not ids and p is not None:
+            p = getattr(p, "parent", None)
+            ids = [n.id for n in cfg.nodes_of(p) if n.id in cfg.reachable()] if p is not None else []
+        return ids[0] if ids else None
+    adds, inits = [], []
+    for x in ast.walk(fn):
+        if isinstance(x, ast.Call) and isinstance(x.func, ast.Attribute) and isinstance(x.func.value, ast.Name) and x.func.value.id == name:
+            nid = at(x)
+            if x.func.attr == "add" and len(x.args) == 1:
+                adds.append(nid is not None and is_int(x.args[0], nid))
+            elif x.func.attr in ("update", "union"):
+                adds.append(False)
+        if isinstance(x, ast.Assign) and any(isinstance(t, ast.Name) and t.id == name for t in x.targets):
+            v = x.value
+            if isinstance(v, ast.Call) and norm(v.func) == "set" and not v.args:
+                inits.append(True)
+            else:
+                inits.append(False)
+    return bool(inits) and all(inits) and bool(adds) and all(adds)
+
+
 def _order_insensitive(loop):
     """The loop body only accumulates into sets / does per-element updates that commute."""
     for st in ast.walk(ast.Module(body=loop.body, type_ignores=[])):
@@ -535,6 +593,8 @@ def r11e(repo, chk):
                     it = it.args[0]
                 if not _set_typed(it, rd, ids[0]):
                     continue
+                if isinstance(it, ast.Name) and _int_elements(it.id, fn, cfg, rd):
+                    continue    # a set of positions: integers hash to themselves, the order does not depend on the hash seed
                 n += 1
                 chk.saw(mn, fn.qual)
                 ok = _order_insensitive(lp)
